@@ -1,7 +1,7 @@
 (* C14 -- the generated configuration is well formed; the limit checks found in the
    source implement the limits; concrete non-vacuity witnesses. *)
 From Coq Require Import List ZArith Bool Lia Permutation.
-From LJT Require Import model.MemMgr model.TjInit model.MemCfg gen.GenMemConst proofs.MemMgrProofs proofs.MemMgrWrap proofs.MemMgrLimits proofs.TjInitProofs.
+From LJT Require Import model.MemMgr model.TjInit model.DestBuf model.MemCfg gen.GenMemConst proofs.MemMgrProofs proofs.MemMgrWrap proofs.MemMgrLimits proofs.TjInitProofs proofs.DestBufProofs.
 Import ListNotations.
 Local Open Scope Z_scope.
 
@@ -117,3 +117,32 @@ Proof.
   split. { repeat constructor; lia. }
   vm_compute. congruence.
 Qed.
+
+(* ---- destination buffer: the configuration found in the source is a good one ---- *)
+Lemma dcfg_src_good : good dcfg_tj /\ good dcfg_ljpeg.
+Proof. unfold good, dcfg_tj, dcfg_ljpeg; simpl. repeat split; auto. Qed.
+
+Lemma destbuf_src_safe : forall cs, DestBuf.safe (final dcfg_tj cs) /\ DestBuf.safe (final dcfg_ljpeg cs).
+Proof. intros. split; apply destbuf_safe; apply dcfg_src_good. Qed.
+
+Definition mkcall m g e f := {| c_mode := m; c_grows := g; c_exit := e; c_free_after := f |}.
+
+(* newbuffer cleared only when the manager is created: the second image, written into a buffer of the caller
+   that it outgrows, makes the library free the FIRST result, which the application owns *)
+Lemma destbuf_first_only_refuted : exists cs,
+  b_stolen (final {| pol := ResetFirstOnly; term_on_throw := true; term_on_longjmp := true |} cs) > 0 /\
+  b_badfree (final {| pol := ResetFirstOnly; term_on_throw := true; term_on_longjmp := true |} cs) > 0.
+Proof. exists [mkcall MLib 1 EFinish false; mkcall MCaller 1 EFinish false]. vm_compute. split; reflexivity. Qed.
+
+(* term_destination only in the setjmp handler: a TurboJPEG-level failure (custom filter) after one reallocation leaves
+   the caller with a dangling pointer (freed when the caller releases it) and the grown buffer allocated *)
+Lemma destbuf_handler_only_refuted : exists cs,
+  b_live (final {| pol := ResetUnlessReused; term_on_throw := false; term_on_longjmp := true |} cs) <> [] /\
+  b_badfree (final {| pol := ResetUnlessReused; term_on_throw := false; term_on_longjmp := true |} cs) > 0.
+Proof. exists [mkcall MLib 1 EThrow false]. vm_compute. split; [congruence | reflexivity]. Qed.
+
+Lemma destbuf_nonvacuous :
+  let cs := [mkcall MLib 2 EFinish false; mkcall MCaller 1 EFinish false; mkcall MReuse 1 ELongjmp true;
+             mkcall MLib 0 EInitFail false; mkcall MReuse 2 EThrow false; mkcall MLib 1 EFinish false; mkcall MReuse 3 EFinish false] in
+  (10 <=? b_nxt (final dcfg_tj cs)) = true /\ b_live (run_calls dcfg_tj ds0 cs) <> [] /\ b_live (final dcfg_tj cs) = [].
+Proof. vm_compute. repeat split; congruence. Qed.
